@@ -22,6 +22,10 @@ type ftr struct {
 	c      *ctx
 	params []string          // extra parameters introduced by abstraction, in order
 	pset   map[string]bool   // ... and the declared ones
+	named  []string          // named results (for a bare return)
+	fname  string
+	nloops int
+	helpers []string
 	errRes bool              // last result is `error`
 	nres   int               // number of non-error results
 	fail   string
@@ -189,6 +193,9 @@ func (t *ftr) ex(e ast.Expr) string {
 }
 
 func (t *ftr) ret(results []ast.Expr) string {
+	if len(results) == 0 && len(t.named) > 0 {
+		return "return " + tuple(t.named)
+	}
 	if t.errRes {
 		last := results[len(results)-1]
 		if id, ok := last.(*ast.Ident); ok && id.Name == "nil" {
@@ -251,6 +258,8 @@ func (t *ftr) stmt(s ast.Stmt, ind string, sb *strings.Builder, declared map[str
 			fmt.Fprintf(sb, "%s%s := (%s ||| %s)\n", ind, id.Name, id.Name, rhs)
 		case token.ADD_ASSIGN:
 			fmt.Fprintf(sb, "%s%s := %s\n", ind, id.Name, wrap(w, id.Name+" + "+rhs))
+		case token.SHR_ASSIGN:
+			fmt.Fprintf(sb, "%s%s := (%s >>> %s)\n", ind, id.Name, id.Name, rhs)
 		default:
 			t.bad("assignment operator %s", x.Tok)
 		}
@@ -313,6 +322,64 @@ func (t *ftr) stmt(s ast.Stmt, ind string, sb *strings.Builder, declared map[str
 			first = false
 			t.stmts(cl.Body, ind+"  ", sb, declared)
 		}
+	case *ast.ForStmt:
+		// `for cond { body }` over shrinking uint64 values (a shift or division per round) becomes
+		// a recursive helper with fuel 64 (more rounds than any uint64 can take):
+		//   <fn>_loopN fuel v1 .. vk r1 .. rm : (v1 × .. × vk)    v = assigned in the loop, r = only read
+		if x.Init != nil || x.Post != nil || x.Cond == nil {
+			t.bad("for loop with init/post")
+			return
+		}
+		assigned, used := loopVars(x, declared, t.pset)
+		if len(assigned) == 0 {
+			t.bad("loop assigns nothing")
+			return
+		}
+		t.nloops++
+		name := fmt.Sprintf("%s_loop%d", t.fname, t.nloops)
+		var ro []string
+		for _, u := range used {
+			isA := false
+			for _, a := range assigned {
+				if a == u {
+					isA = true
+				}
+			}
+			if !isA {
+				ro = append(ro, u)
+			}
+		}
+		all := append(append([]string{}, assigned...), ro...)
+		var hb strings.Builder
+		ty := strings.Repeat("Nat → ", len(all))
+		rt := strings.Join(repeatStr("Nat", len(assigned)), " × ")
+		fmt.Fprintf(&hb, "def %s : Nat → %s(%s)\n", name, ty, rt)
+		fmt.Fprintf(&hb, "  | 0, %s => %s\n", strings.Join(all, ", "), tuple(assigned))
+		fmt.Fprintf(&hb, "  | fuel + 1, %s => Id.run do\n", strings.Join(all, ", "))
+		for _, a := range assigned {
+			fmt.Fprintf(&hb, "    let mut %s := %s\n", a, a)
+		}
+		fmt.Fprintf(&hb, "    if %s then\n", t.ex(x.Cond))
+		inner := map[string]bool{}
+		for k := range declared {
+			inner[k] = true
+		}
+		t.stmts(x.Body.List, "      ", &hb, inner)
+		fmt.Fprintf(&hb, "      return %s fuel %s\n", name, strings.Join(all, " "))
+		fmt.Fprintf(&hb, "    else\n      return %s\n\n", tuple(assigned))
+		t.helpers = append(t.helpers, hb.String())
+		fmt.Fprintf(sb, "%s%s := %s 64 %s\n", ind, tuple(assigned), name, strings.Join(all, " "))
+	case *ast.IncDecStmt:
+		id, ok := x.X.(*ast.Ident)
+		if !ok {
+			t.bad("inc/dec target")
+			return
+		}
+		if x.Tok == token.INC {
+			fmt.Fprintf(sb, "%s%s := %s\n", ind, id.Name, wrap(t.width(x.X), id.Name+" + 1"))
+		} else {
+			t.bad("decrement")
+		}
 	case *ast.BlockStmt:
 		t.stmts(x.List, ind, sb, declared)
 	case *ast.EmptyStmt:
@@ -370,8 +437,46 @@ func (t *ftr) paramList(ft *ast.FuncType) string {
 	return strings.Join(ps, " ")
 }
 
+func repeatStr(s string, n int) []string {
+	out := make([]string, n)
+	for i := range out {
+		out[i] = s
+	}
+	return out
+}
+
+// loopVars: variables (declared locals or parameters) assigned in the loop, and all such
+// variables the loop mentions, in order of first appearance.
+func loopVars(f *ast.ForStmt, declared, params map[string]bool) (assigned, used []string) {
+	seenA, seenU := map[string]bool{}, map[string]bool{}
+	known := func(n string) bool { return declared[n] || params[n] }
+	ast.Inspect(f, func(n ast.Node) bool {
+		switch a := n.(type) {
+		case *ast.AssignStmt:
+			for _, l := range a.Lhs {
+				if id, ok := l.(*ast.Ident); ok && known(id.Name) && !seenA[id.Name] {
+					seenA[id.Name] = true
+					assigned = append(assigned, id.Name)
+				}
+			}
+		case *ast.IncDecStmt:
+			if id, ok := a.X.(*ast.Ident); ok && known(id.Name) && !seenA[id.Name] {
+				seenA[id.Name] = true
+				assigned = append(assigned, id.Name)
+			}
+		case *ast.Ident:
+			if known(a.Name) && !seenU[a.Name] {
+				seenU[a.Name] = true
+				used = append(used, a.Name)
+			}
+		}
+		return true
+	})
+	return
+}
+
 func (c *ctx) renderFunc(name string, ft *ast.FuncType, body *ast.BlockStmt, sb *strings.Builder) {
-	t := &ftr{c: c, pset: map[string]bool{}}
+	t := &ftr{c: c, pset: map[string]bool{}, fname: name}
 	params := t.paramList(ft)
 	rt := t.resultType(ft)
 	var bsb strings.Builder
@@ -382,11 +487,29 @@ func (c *ctx) renderFunc(name string, ft *ast.FuncType, body *ast.BlockStmt, sb 
 			for _, n := range f.Names {
 				if n.Name != "_" && n.Name != "err" {
 					declared[n.Name] = true
+					t.named = append(t.named, n.Name)
 					fmt.Fprintf(&bsb, "  let mut %s := 0\n", n.Name)
 				}
 			}
 		}
 	}
+	// parameters that the body assigns to become mutable locals
+	ast.Inspect(body, func(n ast.Node) bool {
+		var target ast.Expr
+		switch a := n.(type) {
+		case *ast.AssignStmt:
+			if len(a.Lhs) == 1 && a.Tok != token.DEFINE {
+				target = a.Lhs[0]
+			}
+		case *ast.IncDecStmt:
+			target = a.X
+		}
+		if id, ok := target.(*ast.Ident); ok && t.pset[id.Name] && !declared[id.Name] {
+			declared[id.Name] = true
+			fmt.Fprintf(&bsb, "  let mut %s := %s\n", id.Name, id.Name)
+		}
+		return true
+	})
 	t.stmts(body.List, "  ", &bsb, declared)
 	if t.fail != "" {
 		c.failf("function %s is outside the translatable subset: %s", name, t.fail)
@@ -396,6 +519,9 @@ func (c *ctx) renderFunc(name string, ft *ast.FuncType, body *ast.BlockStmt, sb 
 	sort.Strings(t.params)
 	for _, p := range t.params {
 		extra += fmt.Sprintf(" (%s : Nat)", p)
+	}
+	for _, h := range t.helpers {
+		sb.WriteString(h)
 	}
 	fmt.Fprintf(sb, "def %s %s%s : %s := Id.run do\n%s\n", name, params, extra, rt, bsb.String())
 }
@@ -435,6 +561,7 @@ func (c *ctx) genFuncs() {
 	}
 	group("FuncsChunk.lean", []string{"getChunkSize"}, nil)
 	group("FuncsFreq.lean", []string{"encodeFreqHasLocs", "decodeFreqHasLocs"}, nil)
+	group("FuncsVarint.lean", []string{"numUvarintBytes", "totalUvarintBytes"}, nil)
 	group("Funcs1Hit.lean", []string{"under32Bits", "fSTValEncode1Hit", "fSTValDecode1Hit"}, func(sb *strings.Builder) {
 		// the 1-hit branch test of PostingsList.read
 		if fd := c.funcs["PostingsList.read"]; fd != nil {
